@@ -469,6 +469,32 @@ func c12Structure(c *ctx, cs c12Case) {
 		expectRefuse("fill-item-bringing-a-sibling-name", func() {
 			ast.NewListNode("lv", ast.NewUintNode(1, "b")).FillVariables(map[string]interface{}{"lv": ast.NewIntNode(1, "b")})
 		})
+		// one and the same object in two places of a tree carries its names to both
+		expectRefuse("same-item-twice", func() { x := ast.NewUintNode(1, "a", 7); ast.NewListNode(x, x) })
+		expectRefuse("same-item-twice-apart", func() { x := ast.NewBinaryNode("a"); ast.NewListNode(x, ast.NewIntNode(1, 3), x) })
+		expectRefuse("same-sublist-twice", func() { l := ast.NewListNode(ast.NewFloatNode(4, "a")); ast.NewListNode(l, l) })
+		expectRefuse("same-item-at-two-depths", func() {
+			x := ast.NewASCIINodeVariable("a", 0, -1)
+			ast.NewListNode(x, ast.NewListNode(ast.NewListNode(x)))
+		})
+		expectRefuse("fill-same-item-into-two-variables", func() {
+			x := ast.NewUintNode(1, "q")
+			ast.NewListNode("v1", "v2").FillVariables(map[string]interface{}{"v1": x, "v2": x})
+		})
+		expectRefuse("fill-item-the-list-already-holds", func() {
+			x := ast.NewUintNode(1, "q")
+			ast.NewListNode(x, "v").FillVariables(map[string]interface{}{"v": x})
+		})
+		expectRefuse("message-fill-same-item-into-two-variables", func() {
+			x := ast.NewUintNode(1, "q")
+			ast.NewDataMessage("", 1, 1, 0, "H->E", ast.NewListNode("v1", ast.NewListNode("v2"))).FillVariables(map[string]interface{}{"v1": x, "v2": x})
+		})
+		expectAccept("same-variable-free-item-twice", func() { x := ast.NewUintNode(1, 7); ast.NewListNode(x, x, ast.NewListNode(x)) })
+		expectAccept("same-item-in-two-different-lists", func() {
+			x := ast.NewUintNode(1, "a")
+			ast.NewListNode(x)
+			ast.NewListNode(x, "b")
+		})
 		expectRefuse("fill-rename-to-invalid-name", func() { ast.NewUintNode(1, "a").FillVariables(map[string]interface{}{"a": "9z"}) })
 		expectAccept("fill-rename-to-fresh-name", func() { ast.NewUintNode(1, "a", "b").FillVariables(map[string]interface{}{"a": "c"}) })
 		expectAccept("distinct-names", func() { ast.NewListNode(ast.NewIntNode(1, "a"), ast.NewUintNode(1, "b"), "c", "...") })
@@ -575,7 +601,9 @@ func c12Msg(c *ctx, cs c12Case) {
 	}
 	// NewHSMSDataMessage
 	wantH := base && (wait == 0 || wait == 1) && !(wait == 1 && function%2 == 0) && session >= 0 && session <= 65535
-	o4 := real.Try(func() { m = ast.NewHSMSDataMessage(name, stream, function, wait, dir, item, session, []byte{9, 8, 7, 6}) })
+	o4 := real.Try(func() {
+		m = ast.NewHSMSDataMessage(name, stream, function, wait, dir, item, session, []byte{9, 8, 7, 6})
+	})
 	c.Class("msg/NewHSMSDataMessage")
 	if wantH == o4.Panicked {
 		c.Violation("C12/msg/NewHSMSDataMessage", fmt.Sprintf("NewHSMSDataMessage(%q,S%d,F%d,w=%d,%q,session=%d): %s", name, stream, function, wait, dir, session, o4), cs)
@@ -588,7 +616,9 @@ func c12Msg(c *ctx, cs c12Case) {
 	}
 	if base {
 		// an item with variables is refused by the HSMS factory
-		o5 := real.Try(func() { ast.NewHSMSDataMessage(name, stream, function, 0, dir, ast.NewUintNode(1, "v"), 1, []byte{0, 0, 0, 0}) })
+		o5 := real.Try(func() {
+			ast.NewHSMSDataMessage(name, stream, function, 0, dir, ast.NewUintNode(1, "v"), 1, []byte{0, 0, 0, 0})
+		})
 		if !o5.Panicked {
 			c.Violation("C12/msg/NewHSMSDataMessage/variables-accepted", "item with a variable accepted", cs)
 		}
@@ -807,6 +837,73 @@ func runC12(c *ctx) {
 			}
 		}
 	}
+	// several values in one item: one out-of-range value among in-range neighbours of either sign, at every position (a
+	// range check that folds the values of an item together must not let a neighbour vouch for it), by factory and by fill
+	for _, k := range []ref.Kind{ref.I1, ref.I2, ref.I4, ref.U1, ref.U2, ref.U4, ref.B} {
+		var lo, hi int64
+		if k.IsInt() {
+			lo, hi = gen.IntBounds(k.Width())
+		} else {
+			lo, hi = 0, int64(gen.UintMax(k.Width()))
+		}
+		goods := []int64{lo, lo + 1, hi, hi - 1, 0, 1}
+		if k.IsInt() {
+			goods = append(goods, -1, -2, lo/2)
+		}
+		bads := []int64{lo - 1, lo - 2, hi + 1, hi + 2, lo - 128, hi + 256, 2*lo - 1, 2*hi + 2}
+		for _, bad := range bads {
+			for _, g1 := range goods {
+				for _, g2 := range goods {
+					for pos := 0; pos < 3; pos++ {
+						seq := []int64{g1, g2}
+						seq = append(seq[:pos], append([]int64{bad}, seq[pos:]...)...)
+						args := make([]interface{}, len(seq))
+						for i, v := range seq {
+							args[i] = int(v)
+						}
+						o := real.Try(func() { real.Factory(k, args...) })
+						c.NoteBulk(1, 1)
+						c.Class("num/out-of-domain-among-neighbours")
+						if !o.Panicked {
+							c.Violation("C12/numseq/factory/"+k.String(), fmt.Sprintf("%s item with values %v accepted (%d is out of range)", k, seq, bad), c12Case{Op: "numseq", Kind: k.String(), Str: fmt.Sprint(seq)})
+							break
+						}
+						// the same through a fill: every position is a variable
+						names := []interface{}{"va", "vb", "vc"}
+						fill := map[string]interface{}{"va": args[0], "vb": args[1], "vc": args[2]}
+						o2 := real.Try(func() { real.Factory(k, names...).FillVariables(fill) })
+						if !o2.Panicked {
+							c.Violation("C12/numseq/fill/"+k.String(), fmt.Sprintf("%s variables filled with %v accepted (%d is out of range)", k, seq, bad), c12Case{Op: "numseq", Kind: k.String(), Str: fmt.Sprint(seq)})
+							break
+						}
+					}
+				}
+			}
+		}
+		// all values in range: stored exactly, in order
+		for _, g1 := range goods {
+			for _, g2 := range goods {
+				for _, g3 := range goods {
+					it := &ref.Item{Kind: k}
+					var args []interface{}
+					for _, v := range []int64{g1, g2, g3} {
+						if k.IsInt() {
+							it.Slots = append(it.Slots, ref.Slot{Int: v})
+						} else {
+							it.Slots = append(it.Slots, ref.Slot{Uint: uint64(v)})
+						}
+						args = append(args, int(v))
+					}
+					var got []byte
+					o := real.Try(func() { got = real.Factory(k, args...).ToBytes() })
+					c.NoteBulk(1, 1)
+					if o.Panicked || !bytes.Equal(got, ref.Encode(it)) {
+						c.Violation("C12/numseq/in-range/"+k.String(), fmt.Sprintf("%s item with values %v: %s bytes %x want %x", k, args, o, got, ref.Encode(it)), c12Case{Op: "numseq", Kind: k.String(), Str: fmt.Sprint(args)})
+					}
+				}
+			}
+		}
+	}
 	// one header parameter at a time over values that are far out of range but alias a valid value modulo 2^8, 2^16,
 	// 2^32 (a narrower field type must not turn them into valid ones), the others valid
 	{
@@ -829,7 +926,7 @@ func runC12(c *ctx) {
 			}
 		}
 	}
-	c.Required = []string{"msg/far-out-of-range-parameter", "num/in-domain", "num/out-of-domain", "num/int-into-float", "float/non-finite", "float/overflow", "float/in-range", "binstr/valid", "binstr/invalid", "ascii/non-ascii-unicode", "ascii/invalid-utf8", "varname/valid", "varname/invalid", "varname/ellipsis", "msg/NewDataMessage", "msg/NewHSMSDataMessage", "msg/SetSessionID", "msg/fill-after-stamp", "structure/small-trees-encoded-side-by-side"}
+	c.Required = []string{"msg/far-out-of-range-parameter", "num/out-of-domain-among-neighbours", "num/in-domain", "num/out-of-domain", "num/int-into-float", "float/non-finite", "float/overflow", "float/in-range", "binstr/valid", "binstr/invalid", "ascii/non-ascii-unicode", "ascii/invalid-utf8", "varname/valid", "varname/invalid", "varname/ellipsis", "msg/NewDataMessage", "msg/NewHSMSDataMessage", "msg/SetSessionID", "msg/fill-after-stamp", "structure/small-trees-encoded-side-by-side"}
 }
 
 func replayC12(c *ctx, raw json.RawMessage) {
